@@ -804,7 +804,9 @@ theorem npvStep (f : Nat) (hV : NPV c tape f) (hSeq : NPSeq c tape f) (hMap : NP
     cases t <;> first | (simp; done) | exact ve vs
   | _ =>
     simp only [tVal, ht]
-    cases t <;> first | (simp; done) | exact vp _ | simp [visitKey]
+    split
+    · exact (visitPrim_ok .u16 _).2
+    · cases t <;> first | (simp; done) | exact vp _ | simp [visitKey]
 theorem npSeqStep (f : Nat) (hV : NPV c tape f) (hSeq : NPSeq c tape f) : NPSeq c tape (f + 1) := by
   intro et idx e acc he
   simp only [tSeq]
